@@ -1,10 +1,19 @@
 from lib_json import *
 import lib_strutils as SU
+import lib_parser as LP
 
 EXPLANATION = ('Leaf scanners of the JSON parser enforced for buffers of every length with exact-size (is_fresh) buffers: '
-               'every read is inside [content, content+length), loops terminate (decreases), cursors never pass the end.')
-TRUSTED = ['QV::GStream members (Write requires its range to be readable)']
-ASSUMPTIONS = []
+               'every read is inside [content, content+length), loops terminate (decreases), cursors never pass the end. '
+               'The recursive-descent parser itself (Parse, parseValue, parseArray, parseObject of JSONParser<char, StringStream<char>>) is enforced '
+               'function by function with every callee replaced by its contract: each call site hands its callee a readable range inside the '
+               'buffer, keyword loops stay inside the keyword literals, every loop terminates.')
+TRUSTED = ['QV::GStream members (Write requires its range to be readable)',
+           'Array<Value>::operator+=, HArray::Insert, String(const char*, SizeT): assumed contracts (owning containers are object code not under contract); '
+           'String(str, len) requires [str, str+len) readable']
+ASSUMPTIONS = ['destructor calls of Value/String temporaries and locals are dropped by the extraction (ownership is not decided here)',
+               'StringStream<char> satisfies its representation invariant (C14): First() points to Length() readable units',
+               'recursion depth (stack use for deeply nested input) is outside what a function contract states; termination of the recursion '
+               'follows from the cursor never moving backwards and every recursive call being preceded by ++offset, which is not machine-checked']
 
 
 def jobs(tier):
@@ -16,6 +25,14 @@ def jobs(tier):
                         specs=unescape_safety_specs(c), replace=[fn_write(c), fn_append(c), fn_notempty(c), fn_hex2(c), fn_toutf(c)],
                         solver='cadical', timeout=300, must_have=['postcondition', 'loop_invariant_step', 'loop_decreases', 'pointer_dereference'],
                         clause='un-escaping touches only [content, content+length), terminates, returns 0 or a cursor <= length'))
+        nf = unescape_safety_specs(c)
+        nf[fn_unescape(c)] = dict(nf[fn_unescape(c)], refs=['stream'], requires=['terminated == 0'], assigns=[],
+                                  ensures=[e for e in nf[fn_unescape(c)]['ensures'] if 'terminated' not in e])
+        out.append(dict(name='UnEscape<%s>.memory-safety.no-flag' % c, unit=UNIT, fn=fn_unescape(c),
+                        roots=['Qentem::JSONUtils::UnEscape<%s, QV::GStream<%s>>' % (c, c)], fixed_args={'terminated': '0'},
+                        specs=nf, replace=[fn_write(c), fn_append(c), fn_notempty(c), fn_hex2(c), fn_toutf(c)],
+                        solver='cadical', timeout=300, must_have=['postcondition', 'loop_invariant_step', 'loop_decreases', 'pointer_dereference'],
+                        clause='the same with the optional terminated flag omitted (null), as the un-escaping of keys and the tests call it'))
         out.append(dict(name='HexStringToNumber<%s>.memory-safety' % c, unit=UNIT, fn=fn_hex3(c),
                         roots=['Qentem::Digit::HexStringToNumber<unsigned int, %s, unsigned int>' % c],
                         specs=hex_safety_specs(c), solver='cadical', timeout=300,
@@ -34,4 +51,5 @@ def jobs(tier):
                     specs={FN_PEXP: pexp_spec()}, solver='cadical', timeout=300,
                     must_have=['postcondition', 'loop_invariant_step', 'loop_decreases', 'pointer_dereference'],
                     clause='exponent parser reads only inside the buffer, terminates, the cursor never passes end_offset'))
+    out += LP.parser_jobs('C05') + LP.leaf_jobs()[:1]
     return out
